@@ -26,6 +26,12 @@ SValidDemands(e) ==
       fits == sMax = 0 \/ Len(txt) <= sMax
       rt == e.back.ok /\ VerOf(e.back.v) = v
   IN <<
+    <<"X.core",        VerOf(e.core) = [v EXCEPT !.pre = <<>>, !.build = <<>>]>>,
+    <<"X.iszero",      e.iszero = (v = ZeroVer)>>,
+    <<"X.new",         /\ ~e.news[1].panic /\ VerOf(e.news[1].v) = [v EXCEPT !.pre = <<>>, !.build = <<>>]
+                       /\ ~e.news[2].panic /\ VerOf(e.news[2].v) = [v EXCEPT !.build = <<>>]
+                       /\ ~e.news[3].panic /\ VerOf(e.news[3].v) = v
+                       /\ e.news[4].panic>>,
     <<"C03.fmt",       e.text = txt /\ e.texttag = FmtSem(v, TRUE)>>,
     <<"C03.stable",    e.mt = txt /\ e.mt2 = txt>>,
     <<"C03.held",      e.held = txt>>,
